@@ -3,7 +3,12 @@
    numbers stay Coq's inductive positive / N / Z. No Extract Constant. *)
 From Coq Require Extraction.
 From Coq Require Import ExtrOcamlBasic.
-From CFDP Require Import Base.Prelude Model.Segments Model.Crc Model.Timer Model.TxTypes Model.Recv Model.Send.
+From CFDP Require Import Base.Prelude Model.Segments.
+From CFDP Require Import Model.Crc Model.Timer Model.TxTypes Model.Recv Model.Send.
+From CFDP Require Import Model.Checksum.
+From CFDP Require Import Model.Path.
+From CFDP Require Import Model.Udp.
+From CFDP Require Import Model.FsModel.
 
 Extraction Language OCaml.
 Extraction "model.ml"
@@ -11,4 +16,10 @@ Extraction "model.ml"
   Segments.seg_end Segments.end_or_0
   Crc.crc16
   Recv.r_new Recv.rstep Recv.has_pdu_to_send Recv.until_timeout
-  Send.s_new Send.sstep Send.s_has_pdu_to_send Send.s_until_timeout.
+  Send.s_new Send.sstep Send.s_has_pdu_to_send Send.s_until_timeout
+  Checksum.file_checksum
+  Path.path_components Path.path_strip_prefix Path.path_native Path.path_native2
+  Udp.udp_recv Udp.udp_initial_buffer
+  FsModel.fs_request FsModel.fs_resp_code FsModel.fs_tree_of FsModel.fs_entries
+  FsModel.fs_process_request FsModel.fs_exec_requests
+  .
